@@ -1,4 +1,4 @@
-import JunoModel.C04.ProofsInv
+import JunoModel.C04.ProofsReach
 /-!
 C04 — reverting the head exactly undoes a block; forks converge.
 
@@ -8,79 +8,85 @@ running event filter, kept canonical, so `revert cfg nd' = .ok nd` says: RevertH
 whole database content and filter state are those of the node that never stored the block. Every
 Reader query (`answer`) is a function of that record.
 
-What is proved, and for which code:
-* `revert_store_id`, `revert_total`, `fork_converges`: the LEGACY backend as found in /repo
-  (`Cfg.isLegacyAsFound`), for all nodes, blocks and fork depths, under `StepOK` — the invariants of
-  the node before the block plus the protocol facts juno does not check itself — with two cases
-  excluded because the code as found really fails on them (witnesses below):
-  a system contract with empty storage (`LegacyOK.noEmptySys`) and a block that closes an 8192-block
-  filter window (`StepOK.window`).
-* `revert_store_id_partial`: any backend/repair setting, all bucket families outside the state
-  (headers, hash and transaction lookups, L1 messages, state updates, commitments, CASM metadata,
-  filter windows) are restored exactly, GIVEN that `State.Revert` undoes `State.Update`; that
-  premise is proved for the legacy backend only (the new backend's `State.Revert` is modelled and
-  compared with the code by the harness, its inverse theorem is not yet proved).
-* proved negations with concrete witnesses for every defect found in /repo.
+All theorems hold for BOTH state backends (`cfg.legacy`), for every node reachable from the empty node
+(`Good`: by induction over the history of stores and reverts, the invariants are proved, not
+assumed), every block and every fork depth. What a stored block must satisfy (`StoreOK`):
+* `BlockOK` — facts the protocol guarantees and juno does not check (hashes not yet indexed, diff
+  sections are maps, Sierra classes not re-declared, system contracts never deployed, ...);
+* `Safe` — the situations in which the code as found really cannot undo a block; each has a proved
+  counterexample below (K1 legacy / K2 new backend: system contract with empty storage; K3: window
+  closing block, repaired in /repo by 702b167 — with `dropReopenedWindow` the clause is void).
 -/
 namespace Juno.C04.Props
 open Juno.C04 Juno.C04.Map
 
-/-- `RevertHead` after `Store` gives back the node exactly (legacy backend): it succeeds, and every
-bucket family and the running filter equal those of the node that never stored the block. -/
-theorem revert_store_id (cfg : Cfg) (hc : cfg.isLegacyAsFound) (nd nd' : Node) (b : Block)
-    (ok : StepOK cfg nd b) (h : store cfg nd b = .ok nd') : revert cfg nd' = .ok nd :=
-  revert_store_legacy hc ok h
+/-- `RevertHead` after `Store` gives back the node exactly: it succeeds, and every bucket family and
+the running filter equal those of the node that never stored the block. Both backends, every
+reachable node. -/
+theorem revert_store_id (cfg : Cfg) (hc : cfg.asFound) (nd nd' : Node) (b : Block)
+    (g : Good cfg nd) (ok : StoreOK cfg nd b) (h : store cfg nd b = .ok nd') : revert cfg nd' = .ok nd :=
+  revert_store_step (stepOK_of_inv hc (good_inv hc g) ok.block ok.safe h) h
 
 /-- The same in the property's words: the revert succeeds and every Reader query is answered as
 on the node that never stored the block. -/
-theorem revert_store_observations (cfg : Cfg) (hc : cfg.isLegacyAsFound) (nd nd' : Node) (b : Block)
-    (ok : StepOK cfg nd b) (h : store cfg nd b = .ok nd') :
+theorem revert_store_observations (cfg : Cfg) (hc : cfg.asFound) (nd nd' : Node) (b : Block)
+    (g : Good cfg nd) (ok : StoreOK cfg nd b) (h : store cfg nd b = .ok nd') :
     ∃ nd'', revert cfg nd' = .ok nd'' ∧ ∀ q, answer nd'' q = answer nd q :=
-  ⟨nd, revert_store_legacy hc ok h, fun _ => rfl⟩
+  ⟨nd, revert_store_id cfg hc nd nd' b g ok h, fun _ => rfl⟩
 
-/-- `RevertHead` succeeds on every node produced by `Store`. -/
-theorem revert_total (cfg : Cfg) (hc : cfg.isLegacyAsFound) (nd nd' : Node) (b : Block)
-    (ok : StepOK cfg nd b) (h : store cfg nd b = .ok nd') : ∃ nd'', revert cfg nd' = .ok nd'' :=
-  ⟨nd, revert_store_legacy hc ok h⟩
+/-- `RevertHead` succeeds on every reachable node that has a head block, and the result is again a
+reachable node (the one that existed before the head was stored). -/
+theorem revert_total (cfg : Cfg) (hc : cfg.asFound) (nd' : Node) (g : Good cfg nd') (hh : nd'.height ≠ none) :
+    ∃ nd, revert cfg nd' = .ok nd ∧ Good cfg nd :=
+  good_revert hc g hh
 
-/-- Forks converge, for every fork depth: a node that followed fork A from `nd` and reverted it is
-`nd` again, so following fork B afterwards is following B directly. `ChainOK` asks `StepOK` of every
-intermediate node of fork A (that the invariants in it are maintained by `store` is checked on the
-real code by the harness, not proved: hence the name). -/
-theorem fork_converges_partial (cfg : Cfg) (hc : cfg.isLegacyAsFound) (nd ndA : Node) (forkA forkB : List Block)
-    (ok : ChainOK cfg nd forkA) (hA : storeAll cfg nd forkA = .ok ndA) :
+/-- Reachability: whatever sequence of `Store`s and `RevertHead`s is run from the empty node (failing
+operations leave the node unchanged), as long as every block that gets stored is acceptable
+(`HistOK`), the node reached is in `Good` — so it satisfies the invariant `NodeInv` (sorted buckets,
+nothing above the head, history logs consistent with the head state, ...) that the other theorems
+need, and all of them apply to it. -/
+theorem history_invariant (cfg : Cfg) (hc : cfg.asFound) (ops : List Op) (ok : HistOK cfg Node.init ops) :
+    Good cfg (run cfg Node.init ops) ∧ NodeInv cfg (run cfg Node.init ops) :=
+  ⟨run_good hc ops Good.init ok, good_inv hc (run_good hc ops Good.init ok)⟩
+
+/-- Forks converge, for every fork depth: a node that followed fork A from a reachable node `nd` and
+reverted `|A|` blocks is `nd` again, so following fork B afterwards is following B directly. -/
+theorem fork_converges (cfg : Cfg) (hc : cfg.asFound) (nd ndA : Node) (forkA forkB : List Block)
+    (g : Good cfg nd) (ok : ChainStoreOK cfg nd forkA) (hA : storeAll cfg nd forkA = .ok ndA) :
     revertN cfg ndA forkA.length = .ok nd ∧
     (match revertN cfg ndA forkA.length with
      | .ok n => storeAll cfg n forkB
      | .error e => .error e) = storeAll cfg nd forkB := by
-  have h := revertN_storeAll hc forkA ok hA
+  have h := (revertN_storeAll_good hc forkA g ok hA).1
   exact ⟨h, by rw [h]⟩
 
-/-- Every bucket family outside the state is restored exactly by `RevertHead`, for either backend
-and any repair setting, given that `State.Revert` undoes `State.Update` on this block. -/
-theorem revert_store_id_partial (cfg : Cfg) (nd nd' : Node) (b : Block)
-    (wf : IndexWF nd) (fr : Fresh nd b) (hcasm : CasmOK nd.casm b)
-    (hfil : FilterOK cfg nd.running nd.persisted b.number)
-    (hwin : cfg.dropReopenedWindow = true ∨ b.number ≠ nd.running.fromBlock + cfg.window - 1)
-    (hst : ∀ casm', storeCasm b.number b nd.casm = .ok casm' → StateInverse cfg nd.st b casm')
-    (h : store cfg nd b = .ok nd') : revert cfg nd' = .ok nd :=
-  revert_store_of_parts cfg wf fr hst hcasm hfil hwin h
+/-- `Store` maintains the node invariant (the induction step of `history_invariant`). -/
+theorem store_preserves_invariant (cfg : Cfg) (hc : cfg.asFound) (nd nd' : Node) (b : Block)
+    (inv : NodeInv cfg nd) (ok : StoreOK cfg nd b) (h : store cfg nd b = .ok nd') : NodeInv cfg nd' :=
+  store_inv hc inv ok.block ok.safe h
 
-/-- `Store` maintains the invariant of the per-block buckets (`IndexWF`, one of the hypotheses of
-`StepOK`), and the empty node satisfies it: for these bucket families the hypothesis holds on every
-node reachable from the empty one. -/
-theorem store_preserves_index_invariant (cfg : Cfg) (nd nd' : Node) (b : Block) (wf : IndexWF nd)
-    (h : store cfg nd b = .ok nd') : IndexWF nd' ∧ nd'.nextNumber = nd.nextNumber + 1 :=
-  store_preserves_IndexWF wf h
+/-- `State.Revert` undoes `State.Update`, legacy backend (`core/deprecatedstate`). -/
+theorem state_revert_update_legacy (cfg : Cfg) (hleg : cfg.legacy = true) (hfix : cfg.zeroWriteFix = true)
+    (hpu : cfg.legacyPurgeOnUpdate = false) (s s' : State) (b : Block) (casm' : Map Nat CasmMeta)
+    (ok : LegacyOK cfg s casm' b) (h : updateState cfg b s = .ok s') :
+    revertState cfg b.number b.ver ⟨b.diff, b.oldRoot, b.newRoot⟩ casm' s' = .ok s :=
+  legacy_revert_update hleg hfix hpu ok h
 
-theorem empty_node_index_invariant : IndexWF Node.init := init_IndexWF
+/-- `State.Revert` undoes `State.Update`, new backend (`core/state`). -/
+theorem state_revert_update_new (cfg : Cfg) (hleg : cfg.legacy = false)
+    (s s' : State) (b : Block) (casm' : Map Nat CasmMeta)
+    (ok : NewOK cfg s casm' b) (h : updateState cfg b s = .ok s') :
+    revertState cfg b.number b.ver ⟨b.diff, b.oldRoot, b.newRoot⟩ casm' s' = .ok s :=
+  new_revert_update hleg ok h
 
 /-! ### Witnesses: where the full-strength statement is false of the code as found
 
 Full-strength statement (kept for the record):
-  `∀ cfg nd b nd', Reachable nd → store cfg nd b = .ok nd' → revert cfg nd' = .ok nd`.
-It fails in the cases below; each is replayed on the real code by the harness (directed scenarios
-of the same names in `harness/cmd/c04/main.go`). -/
+  `∀ cfg nd b nd', Good cfg nd → BlockOK cfg nd b → store cfg nd b = .ok nd' → revert cfg nd' = .ok nd`.
+It fails exactly in the cases `Safe` excludes; each is replayed on the real code by the harness
+(directed scenarios in `harness/cmd/c04/main.go`). `zero_write…`, `reopened_window…` and
+`implicit_class…` are about defects that are repaired in /repo by now (05cf200, 702b167, 64c1acb):
+the model keeps the switch, the witness shows what the repair changed. -/
 
 def legacyCfg : Cfg :=
   { legacy := true, zeroWriteFix := true, dropReopenedWindow := false, removeImplicitClasses := false,
@@ -155,6 +161,9 @@ theorem fresh_tx_hash_needed :
 
 /-! ### Non-vacuity -/
 
+theorem legacyCfg_asFound : legacyCfg.asFound := ⟨by decide, fun _ => ⟨rfl, rfl⟩⟩
+theorem newCfg_asFound : newCfg.asFound := ⟨by decide, fun h => by cases h⟩
+
 -- a block with a deployment, a storage write to the deployed contract and a nonce is stored, and
 -- reverted exactly, on both backends of the model
 example : sameNode (thenRevert legacyCfg (fstoreAll legacyCfg Node.init
@@ -164,25 +173,15 @@ example : sameNode (thenRevert newCfg (fstoreAll newCfg Node.init
     [blk 0 10 0 Diff.empty, blk 1 11 10 { Diff.empty with deployed := [(0x104, 0xc0)], storage := [((0x104, 1), 7), ((1, 2), 3)], nonces := [(0x104, 1)] }]))
     (fstoreAll newCfg Node.init [blk 0 10 0 Diff.empty]) = true := by decide
 
--- the hypotheses of the one-step theorem are satisfiable: the empty node and a block with a
--- deployment and a storage write (and that block is stored)
+-- the hypotheses are satisfiable: on the empty node (which is `Good`) a block with a deployment
+-- and a storage write is acceptable for either backend, and it is stored
 def b0 : Block := blk 0 10 0 { Diff.empty with deployed := [(0x104, 0xc0)], storage := [((0x104, 1), 7)] }
 
-example : StepOK legacyCfg Node.init b0 where
-  index := ⟨trivial, trivial, trivial, trivial, trivial, trivial, trivial, fun m _ => ⟨rfl, rfl, rfl, rfl⟩⟩
-  fresh := ⟨rfl, fun t ht => by simp [b0, blk] at ht, fun t ht => by simp [b0, blk] at ht⟩
-  casm := ⟨trivial, trivial, trivial, fun c x h => by simp [b0, blk, Diff.empty, Map.get] at h, fun _ => rfl⟩
-  filter := ⟨by decide, rfl, by decide, by decide, by decide, trivial, trivial, rfl, rfl, rfl⟩
-  window := Or.inr (by decide)
-  state := fun casm' _ =>
-    { sC := trivial, sSt := trivial, sCl := trivial, sTr := trivial, sHS := trivial, sHN := trivial, sHC := trivial,
-      aboveS := fun _ _ _ => rfl, aboveN := fun _ _ _ => rfl, aboveC := fun _ _ _ => rfl,
-      nonzero := fun p v h => by simp [Node.init, State.empty, Map.get] at h,
-      owned := fun a k v h => by simp [Node.init, State.empty, Map.get] at h,
-      genesis := fun _ => rfl,
-      classAt := fun c r h => by simp [Node.init, State.empty, Map.get] at h,
-      trieSub := fun c v h => by simp [Node.init, State.empty, Map.get] at h,
-      noEmptySys := fun a _ h => by simp [Node.init, State.empty, Map.get] at h,
+theorem b0_storeOK (cfg : Cfg) (hw : cfg.window = 4) : StoreOK cfg Node.init b0 where
+  block :=
+    { fresh := ⟨rfl, fun t ht => by simp [b0, blk] at ht, fun t ht => by simp [b0, blk] at ht⟩,
+      casmFresh := fun c x h => by simp [b0, blk, Diff.empty, Map.get] at h,
+      migVer := fun _ => rfl,
       dDep := ⟨fun e he => by simp at he, trivial⟩, dRep := trivial, dNon := trivial,
       dSto := ⟨fun e he => by simp at he, trivial⟩, dDecl := trivial, dMig := trivial, dDefs := trivial,
       depNotSys := fun a c h => (by
@@ -190,12 +189,19 @@ example : StepOK legacyCfg Node.init b0 where
         split at h
         · rename_i ha; subst ha; decide
         · cases h),
+      depRep := fun a c _ => rfl,
       nodup := by simp [b0, blk, Diff.empty, Map.keys],
       known0 := fun c hc => by simp [b0, blk, Diff.empty] at hc,
       decl1 := fun c h hh => by simp [b0, blk, Diff.empty, Map.get] at hh,
-      defsListed := fun c d h => by simp [b0, blk, Map.get] at h,
-      migOK := fun c y h => by simp [b0, blk, Diff.empty, Map.get] at h }
+      defsListed := fun c d h => by simp [b0, blk, Map.get] at h }
+  safe :=
+    { noEmptySys := fun _ a _ h => by simp [Node.init, State.empty, Map.get] at h,
+      noSysEmptied := fun _ a _ h => by simp [Node.init, State.empty, Map.get] at h,
+      window := Or.inr (by simp [b0, blk, Node.init, hw]) }
 
+example : StoreOK legacyCfg Node.init b0 := b0_storeOK legacyCfg rfl
+example : StoreOK newCfg Node.init b0 := b0_storeOK newCfg rfl
 example : (store legacyCfg Node.init (withRoots legacyCfg Node.init b0)).toOption.isSome = true := by decide
+example : (store newCfg Node.init (withRoots newCfg Node.init b0)).toOption.isSome = true := by decide
 
 end Juno.C04.Props
